@@ -271,7 +271,7 @@ var c07lines = []string{
 
 func editMenu() []hop {
 	var m []hop
-	for i := 0; i < 4; i++ {
+	for i := 0; i < 5; i++ {
 		m = append(m, hop{Op: "AddRef", I: i})
 	}
 	for i := 0; i < 3; i++ {
@@ -290,6 +290,7 @@ func editMenu() []hop {
 	for i := 0; i < 3; i++ {
 		m = append(m, hop{Op: "Merge", I: i})
 	}
+	m = append(m, hop{Op: "Merge", I: 100}) // partner 3
 	// three sources: the header and two partners (I = 3*first + second)
 	for _, pq := range [][2]int{{0, 2}, {2, 0}, {0, 1}, {1, 2}, {2, 2}} {
 		m = append(m, hop{Op: "Merge", I: 3 + 3*pq[0] + pq[1]})
@@ -311,6 +312,10 @@ func prepRef(i int) *sam.Reference {
 		r, _ = sam.NewReference("a", "asm", "", 100, nil, nil)
 	case 2:
 		r, _ = sam.NewReference("b", "", "", 200, nil, nil)
+	case 4: // "a" again, with a checksum
+		r, _ = sam.NewReference("a", "", "", 100, bytes.Repeat([]byte{0x11}, 16), nil)
+	case 5: // "a" with another checksum
+		r, _ = sam.NewReference("a", "", "", 100, bytes.Repeat([]byte{0x22}, 16), nil)
 	}
 	return r
 }
@@ -326,6 +331,8 @@ func partner(i int) *sam.Header {
 		refs = []*sam.Reference{x, y}
 	case 2: // same names, other order, extra tags
 		refs = []*sam.Reference{prepRef(2), prepRef(1)}
+	case 3: // a common reference carrying a different checksum
+		refs = []*sam.Reference{prepRef(5), prepRef(2)}
 	}
 	h, _ := sam.NewHeader(nil, refs)
 	return h
@@ -392,7 +399,9 @@ func applyOp(c *Ctx, st *editState, o hop, cas c07edit) bool {
 		st.h = h.Clone()
 	case "Merge":
 		srcs := []*sam.Header{h, partner(o.I)}
-		if o.I >= 3 {
+		if o.I == 100 {
+			srcs = []*sam.Header{h, partner(3)}
+		} else if o.I >= 3 {
 			srcs = []*sam.Header{h, partner((o.I - 3) / 3), partner((o.I - 3) % 3)}
 		}
 		var before []string
@@ -487,6 +496,11 @@ func checkState(c *Ctx, st *editState, cas c07edit) bool {
 			return false
 		}
 	}
+	// the private name tables agree with the items: one entry per item, mapping its name to its id
+	if msg := tablesConsistent(h); msg != "" {
+		c.Violate("edit:name-table-out-of-step:after-"+last, fmt.Sprintf("%s\ntables and items: %s\nhistory: %s", msg, h.VerifDump(), hist), cas)
+		return false
+	}
 	// ownership, directly: every item reachable from the header names this header as its owner
 	if d := h.VerifDump(); strings.Contains(d, "ownfalse") {
 		c.Violate("edit:item-owned-by-another-header:after-"+last, fmt.Sprintf("an item reachable from the header is owned by another header (or none): %s\nhistory: %s", d, hist), cas)
@@ -518,6 +532,48 @@ func checkState(c *Ctx, st *editState, cas c07edit) bool {
 	return roundTrip(c, h, "edit:roundtrip:after-"+last, "history: "+hist, cas)
 }
 
+// tablesConsistent parses the verif hook's dump ("refs{name:id ...}rgs{...}pgs{...}[r name idN ownB]...")
+// and checks that every table has exactly one entry per item of its kind, name -> id.
+func tablesConsistent(h *sam.Header) string {
+	d := h.VerifDump()
+	tables := map[string]map[string]string{}
+	for _, k := range []string{"refs", "rgs", "pgs"} {
+		i := strings.Index(d, k+"{")
+		if i < 0 {
+			return "dump lacks table " + k
+		}
+		j := strings.Index(d[i:], "}")
+		t := map[string]string{}
+		for _, e := range strings.Fields(d[i+len(k)+1 : i+j]) {
+			c := strings.LastIndex(e, ":")
+			t[e[:c]] = e[c+1:]
+		}
+		tables[k] = t
+	}
+	count := map[string]int{}
+	kindOf := map[string]string{"r": "refs", "g": "rgs", "p": "pgs"}
+	rest := d[strings.Index(d, "pgs{"):]
+	rest = rest[strings.Index(rest, "}")+1:]
+	for _, it := range strings.Split(rest, "[") {
+		f := strings.Fields(strings.TrimSuffix(it, "]"))
+		if len(f) < 3 {
+			continue
+		}
+		k := kindOf[f[0]]
+		name, id := strings.Join(f[1:len(f)-2], " "), strings.TrimPrefix(f[len(f)-2], "id")
+		count[k]++
+		if got, ok := tables[k][name]; !ok || got != id {
+			return fmt.Sprintf("%s table maps %q to %q (present %v), the item has id %s", k, name, got, ok, id)
+		}
+	}
+	for k, t := range tables {
+		if len(t) != count[k] {
+			return fmt.Sprintf("%s table has %d entries for %d items", k, len(t), count[k])
+		}
+	}
+	return ""
+}
+
 // runEdit replays a history on a fresh header and checks the state after the last operation.
 func runEdit(c *Ctx, cas c07edit) (key string, ok bool) {
 	ok = guard(c, "edit:"+cas.Ops[len(cas.Ops)-1].Op, cas, func() {
@@ -542,7 +598,7 @@ func runEdit(c *Ctx, cas c07edit) (key string, ok bool) {
 }
 
 func c07(c *Ctx) {
-	c.Rule = "round trip: each header section enumerated as a full product with the other sections at two contexts (empty, populated): @HD version {'' , 1.6} x SO (4) x GO (4) x 0-2 extra tags; every list of 0-3 references over 6 variants (bare, M5, AS+SP, UR file, UR http, custom tag); every list of 0-2 read groups over 8 variants (bare, all optional fields, dates in UTC/+0930/-0700/date-only, negative PI, FO/KS '*'); lists of 0-2 programs over 2 variants; comments {none, x, 'a b', two}; under time.Local = UTC and +09:30; text and binary: parse(serialise(h)) serialises identically and exposes equal values. edit histories: BFS with de-duplication (key = text + private identity tables) to depth 4 (thorough 7) over {AddReference of 4 prepared references (two share a name with different tags, one equals an existing one), RemoveReference(i), SetName, Add/Remove read group and program, SetName/SetUID, Clone (continue on the clone, original must stay intact), MergeHeaders with each of 3 partner headers and with 5 ordered pairs of them (three sources), UnmarshalText of 7 extra lines incl. duplicate names}; in every state: ids equal indexes, names unique, items owned, originals untouched, merge links correct, serialisation round trip. Non-trivial: states with at least two items."
+	c.Rule = "round trip: each header section enumerated as a full product with the other sections at two contexts (empty, populated): @HD version {'' , 1.6} x SO (4) x GO (4) x 0-2 extra tags; every list of 0-3 references over 6 variants (bare, M5, AS+SP, UR file, UR http, custom tag); every list of 0-2 read groups over 8 variants (bare, all optional fields, dates in UTC/+0930/-0700/date-only, negative PI, FO/KS '*'); lists of 0-2 programs over 2 variants; comments {none, x, 'a b', two}; under time.Local = UTC and +09:30; text and binary: parse(serialise(h)) serialises identically and exposes equal values. edit histories: BFS with de-duplication (key = text + private identity tables) to depth 4 (thorough 7) over {AddReference of 5 prepared references (three share a name with different tags/checksums, one equals an existing one), RemoveReference(i), SetName, Add/Remove read group and program, SetName/SetUID, Clone (continue on the clone, original must stay intact), MergeHeaders with each of 4 partner headers (one carrying a different checksum for a common reference) and with 5 ordered pairs of them (three sources), UnmarshalText of 7 extra lines incl. duplicate names}; in every state: ids equal indexes, names unique, name tables in step with the items (hook), items owned, originals untouched, merge links correct, serialisation round trip. Non-trivial: states with at least two items."
 	if c.Replay != nil {
 		var probe struct {
 			Ops []hop `json:"ops"`
